@@ -6,6 +6,7 @@ from qvlib.paths import (Flow, agg_sites, consumer_calls, discr_switches, diverg
                          path_desc)
 
 CRATES = None
+OPTIONAL_FNS = ("Worker::notify_result", "Worker::deliver_message", "Worker::update_program")      # private Worker helpers that may be inlined into their only caller
 ENV = "quiver_environment::environment::Environment"
 
 
